@@ -466,6 +466,29 @@ pub mod verif_hook {
   }
 
   thread_local! {
+    /// what the harness wants to happen right before this thread locks a
+    /// `MutArc` (see `lock_gate`)
+    pub static LOCK_GATE: RefCell<Option<Box<dyn FnMut(usize, &dyn Fn() -> bool)>>> = RefCell::new(None);
+  }
+
+  /// Called by `MutArc` right before it locks: the address of the mutex and
+  /// a probe that tells whether the mutex is free at the moment. A harness
+  /// that runs one thread at a time parks the calling thread here until the
+  /// schedule picks it and the mutex is free.
+  pub fn lock_gate(addr: usize, free: &dyn Fn() -> bool) {
+    let cb = LOCK_GATE.with(|g| g.borrow_mut().take());
+    if let Some(mut cb) = cb {
+      cb(addr, free);
+      LOCK_GATE.with(|g| {
+        let mut slot = g.borrow_mut();
+        if slot.is_none() {
+          *slot = Some(cb);
+        }
+      });
+    }
+  }
+
+  thread_local! {
     /// the mutexes this thread has locked, in order, while recording is on
     pub static LOCKS: RefCell<Option<Vec<usize>>> = RefCell::new(None);
   }
